@@ -490,6 +490,13 @@ def work_items(tier, seed):
             # both dtypes and all layouts on a small sub-family for every grid
             items.append(dict(kind="structured1", f=f, d=d, alpha=alpha, layout=LAYOUTS[(gi + 1) % 3],
                               dtype="float32" if dtype == "float64" else "float64", grid=fname + "/" + dname))
+    # extreme energy scales (every defining integral is linear or a ratio: relative agreement must not depend on the scale)
+    for k, (fname, f) in enumerate(fams):
+        for dname, d in dsets[1::2]:
+            if len(f) * len(d) > 24 or len(f) < 2:
+                continue
+            for scale in (1e-12, 1e9):
+                items.append(dict(kind="structured1", f=f, d=d, alpha=alpha, layout="site", dtype="float64", grid=fname + "/" + dname + "/x%g" % scale, scale=scale))
     # 1D spectra (no dir dimension at all)
     for fname, f in fams:
         if len(f) <= (8 if tier == "quick" else 9):
@@ -509,7 +516,7 @@ def spectra_for(it):
     if it["kind"] == "structured":
         return gen.structured(nf, len(d), it["alpha"], kmax=2)
     if it["kind"] == "structured1":
-        return gen.structured(nf, len(d), it["alpha"], kmax=1)
+        return gen.structured(nf, len(d), it["alpha"], kmax=1) * it.get("scale", 1.0)
     raise ValueError(it["kind"])
 
 
@@ -545,7 +552,7 @@ def run_item(it):
                 res["violations"].append(Violation(PROP, "%s|batched-only" % stat.split("(")[0],
                                                    "violation seen only inside a batch (grid %s): %s" % (it["grid"], msg),
                                                    dict(case, layout=it["layout"], batch_note="single-spectrum replay passes")))
-    res["parts"][it["kind"]] = res["evals"]
+    res["parts"][it["kind"] + ("-extreme-scale" if it.get("scale") else "")] = res["evals"]
     if E.shape[0] > 5:
         j = E.shape[0] // 2
         res["samples"].append(dict(grid=it["grid"], freq=it["f"], dir=it["d"], dtype=it["dtype"], layout=it["layout"], efth=E[j]))
